@@ -242,6 +242,28 @@ func (s *Server) CrashLine() string {
 	return ""
 }
 
+// CrashBlock returns the panic / fatal error line and the following lines (the crashing goroutine's stack), at most n lines.
+func (s *Server) CrashBlock(n int) string {
+	lines := strings.Split(s.Output(), "\n")
+	for i, l := range lines {
+		if strings.HasPrefix(l, "panic:") || strings.HasPrefix(l, "fatal error:") {
+			end := i + n
+			if end > len(lines) {
+				end = len(lines)
+			}
+			// stop at the end of the first goroutine's stack
+			for j := i + 3; j < end; j++ {
+				if lines[j] == "" {
+					end = j
+					break
+				}
+			}
+			return strings.Join(lines[i:end], "\n")
+		}
+	}
+	return ""
+}
+
 // RaceReports counts "WARNING: DATA RACE" blocks in the race log files and the output.
 func (s *Server) RaceReports() (int, string) {
 	n := strings.Count(s.Output(), "WARNING: DATA RACE")
